@@ -386,28 +386,38 @@ Fixpoint split_rb (s : string) : option (string * string) :=
 (* fixedSizeArrayRegex ^\[(\d+)\](.+)$ + strconv.Atoi *)
 Definition parse_array (s : string) : option (N * string) :=
   match s with
-  | String "[" s' =>
-      match split_rb s' with
-      | Some (ds, rest) =>
-          match ds, rest with
-          | EmptyString, _ => None
-          | _, EmptyString => None
-          | _, _ => match NilEmpty.uint_of_string ds with
-                    | Some u => Some (N.of_uint u, rest)
-                    | None => None
-                    end
-          end
-      | None => None
-      end
-  | _ => None
+  | String c s' =>
+      if Ascii.eqb c "[" then
+        match split_rb s' with
+        | Some (ds, rest) =>
+            match ds, rest with
+            | EmptyString, _ => None
+            | _, EmptyString => None
+            | _, _ => match NilEmpty.uint_of_string ds with
+                      | Some u => Some (N.of_uint u, rest)
+                      | None => None
+                      end
+            end
+        | None => None
+        end
+      else None
+  | EmptyString => None
   end.
 
 (* field of a reflect.StructOf type: Name = cases.Title(name) (not modelled: the Go name of a field has no
    influence on the codec or on JSON, which uses the tag), Tag = serialize:"true" json:"<name>" *)
 Definition rfield (nm : string) : finfo := FI nm (Some nm) true false.
 
-Fixpoint fields_of_list (l : list (finfo * ty)) : fields :=
-  match l with [] => FNil | (i, t) :: l' => FCons i t (fields_of_list l') end.
+(* the loop over abiType.Fields; [r] = getReflectType on a field's type name *)
+Fixpoint reflect_fields (r : string -> option ty) (fl : list (string * string)) : option fields :=
+  match fl with
+  | [] => Some FNil
+  | (fn, ft) :: fl' =>
+      match r ft, reflect_fields r fl' with
+      | Some t, Some rest => Some (FCons (rfield fn) t rest)
+      | _, _ => None
+      end
+  end.
 
 Fixpoint reflect (fuel : nat) (a : list abitype) (nm : string) : option ty :=
   match fuel with
@@ -431,19 +441,7 @@ Fixpoint reflect (fuel : nat) (a : list abitype) (nm : string) : option ty :=
                | None =>
                    match lookup nm a with
                    | None => None                                  (* "type %s not found in ABI" *)
-                   | Some fl =>
-                       match (fix go (fl : list (string * string)) : option fields :=
-                                match fl with
-                                | [] => Some FNil
-                                | (fn, ft) :: fl' =>
-                                    match reflect f a ft, go fl' with
-                                    | Some t, Some r => Some (FCons (rfield fn) t r)
-                                    | _, _ => None
-                                    end
-                                end) fl with
-                       | Some fs => Some (TStruct nm fs)
-                       | None => None
-                       end
+                   | Some fl => option_map (TStruct nm) (reflect_fields (reflect f a) fl)
                    end
                end
            end
@@ -498,7 +496,6 @@ with canon_vals (fs : fields) (vs : list value) {struct fs} : list value :=
       else canon_vals rest vs
   end.
 
-(* inverse direction (JSON document decoded by the ABI type -> value of the native type) *)
 Fixpoint height (t : ty) : nat :=
   match t with
   | TSlice t' => S (height t')
